@@ -1,6 +1,7 @@
 package main
 
 import (
+	"time"
 	"os"
 	"fmt"
 	"math/big"
@@ -115,25 +116,28 @@ type Model map[string]*big.Int
 
 // Discharge solves all obligations in parallel.
 func Discharge(obls []*Obligation, opts SolveOpts, workers int, wantModels bool) {
-	var wg sync.WaitGroup
-	ch := make(chan *Obligation)
-	// script generation is not thread-safe on a shared TB: generate scripts first, sequentially per Exec
+	// script generation is not thread-safe on a shared TB: plain scripts are generated first, sequentially; the
+	// instantiation aid (expensive) is computed afterwards, only for obligations the first solver stage did not
+	// decide, sequentially per Exec and in parallel across Execs
 	type job struct {
-		o      *Obligation
-		script string
-		aided  string
-		ground string
-		small  string
-		mq     *modelQuery
+		o       *Obligation
+		script  string
+		small   string
+		mq      *modelQuery
+		asserts []*Term // path condition (incl. region handling), without the negated goal
+		goal    *Term
+		gv      []*Term
+		idx     int
 	}
-	jobs := make([]job, 0, len(obls))
+	jobs := make([]*job, 0, len(obls))
+	tPhase := time.Now()
 	for _, o := range obls {
 		if o.Trivial {
 			o.Result = &SolveResult{Status: "unsat", Solver: "simplifier"}
 			continue
 		}
 		tb := o.x.tb
-		asserts := append([]*Term(nil), o.Asserts...)
+		pc := append([]*Term(nil), o.Asserts...)
 		goal := o.Goal
 		if o.Region != nil {
 			// known finding: prove the obligation outside the recorded failing region, and (when the finding
@@ -141,10 +145,10 @@ func Discharge(obls []*Obligation, opts SolveOpts, workers int, wantModels bool)
 			if o.Observed != nil {
 				goal = tb.And(tb.Implies(tb.Not(o.Region), goal), tb.Implies(o.Region, o.Observed))
 			} else {
-				asserts = append(asserts, tb.Not(o.Region))
+				pc = append(pc, tb.Not(o.Region))
 			}
 		}
-		asserts = append(asserts, tb.Not(goal))
+		asserts := append(append([]*Term(nil), pc...), tb.Not(goal))
 		var mq *modelQuery
 		var gv []*Term
 		if wantModels {
@@ -177,76 +181,59 @@ func Discharge(obls []*Obligation, opts SolveOpts, workers int, wantModels bool)
 				small = tb.Script(append(append([]*Term(nil), asserts...), extra...), gv, false)
 			}
 		}
-		aided, ground := "", ""
-		if len(o.Aid) > 0 {
-			aided = tb.Script(append(append([]*Term(nil), asserts...), o.Aid...), gv, false)
-			// ground arm: the instances with every remaining quantifier weakened away (only "unsat" means anything)
-			var gs []*Term
-			for _, a := range asserts {
-				if w := tb.WeakenQ(a, 1); !w.IsTrue() {
-					gs = append(gs, w)
-				}
-			}
-			for _, a := range o.Aid {
-				if w := tb.WeakenQ(a, 1); !w.IsTrue() {
-					gs = append(gs, w)
-				}
-			}
-			ground = tb.Script(gs, nil, false)
-			if d := os.Getenv("GOVC_DUMPGROUND"); d != "" {
-				// diagnostics: the ground script with the goal's quantifier-free conjuncts as get-value terms
-				var parts []*Term
-				var split func(t *Term)
-				split = func(t *Term) {
-					switch {
-					case t.op == "and":
-						for _, a := range t.args {
-							split(a)
-						}
-					case t.op == "=>":
-						parts = append(parts, t.args[0])
-						split(t.args[1])
-					case !t.hasQ:
-						parts = append(parts, t)
-					}
-				}
-				split(goal)
-				os.MkdirAll(d, 0755)
-				var sb strings.Builder
-				for i, p := range parts {
-					fmt.Fprintf(&sb, "; part %d: %s\n", i, tb.Show(p))
-				}
-				os.WriteFile(fmt.Sprintf("%s/%s_%d.smt2", d, sanitize(o.Name), len(jobs)), []byte(sb.String()+tb.Script(gs, parts, false)), 0644)
+		jobs = append(jobs, &job{o: o, script: tb.Script(asserts, gv, false), small: small, mq: mq, asserts: pc, goal: goal, gv: gv, idx: len(jobs)})
+	}
+	finish := func(j *job, r *SolveResult) {
+		if r.Status == "sat" && j.small != "" {
+			// prefer a counterexample with small slices (replayable); keep the first answer otherwise
+			if r2 := Solve(j.small, opts); r2.Status == "sat" {
+				r2.Tried = append(r.Tried, r2.Tried...)
+				r2.Seconds += r.Seconds
+				r = r2
 			}
 		}
-		jobs = append(jobs, job{o, tb.Script(asserts, gv, false), aided, ground, small, mq})
+		j.o.Result = r
+		if r.Status == "sat" && j.mq != nil && len(r.Values) == len(j.mq.terms) {
+			m := Model{}
+			for i, d := range j.mq.descr {
+				if v, ok := parseSMTValue(r.Values[i]); ok {
+					m[d] = v
+				}
+			}
+			j.o.ModelVals = m
+		}
 	}
-	_ = ch
-	jch := make(chan job)
+	if os.Getenv("GOVC_TIMING") != "" {
+		fmt.Fprintf(os.Stderr, "TIMING scripts: %.1fs for %d jobs\n", time.Since(tPhase).Seconds(), len(jobs))
+		tPhase = time.Now()
+	}
+	// phase 1: the plain query, z3 5.1, short budget
+	var wg sync.WaitGroup
+	var mu sync.Mutex
+	var hard []*job
+	first := map[*job]*SolveResult{}
+	jch := make(chan *job)
 	for w := 0; w < workers; w++ {
 		wg.Add(1)
 		go func() {
 			defer wg.Done()
 			for j := range jch {
-				r := SolveAided(j.script, j.aided, j.ground, opts)
-				if r.Status == "sat" && j.small != "" {
-					// prefer a counterexample with small slices (replayable); keep the first answer otherwise
-					if r2 := Solve(j.small, opts); r2.Status == "sat" {
-						r2.Tried = append(r.Tried, r2.Tried...)
-						r2.Seconds += r.Seconds
-						r = r2
+				o1 := opts
+				for _, a := range j.asserts {
+					if a.hasQ {
+						o1.FirstBudget = 1 // quantified path condition: the ground arm of phase 2 is the likelier winner
+						break
 					}
 				}
-				j.o.Result = r
-				if r.Status == "sat" && j.mq != nil && len(r.Values) == len(j.mq.terms) {
-					m := Model{}
-					for i, d := range j.mq.descr {
-						if v, ok := parseSMTValue(r.Values[i]); ok {
-							m[d] = v
-						}
-					}
-					j.o.ModelVals = m
+				r := SolveFirst(j.script, o1)
+				if r.Status == "unsat" || r.Status == "sat" {
+					finish(j, r)
+					continue
 				}
+				mu.Lock()
+				hard = append(hard, j)
+				first[j] = r
+				mu.Unlock()
 			}
 		}()
 	}
@@ -255,6 +242,106 @@ func Discharge(obls []*Obligation, opts SolveOpts, workers int, wantModels bool)
 	}
 	close(jch)
 	wg.Wait()
+	if os.Getenv("GOVC_TIMING") != "" {
+		fmt.Fprintf(os.Stderr, "TIMING phase1: %.1fs, %d hard\n", time.Since(tPhase).Seconds(), len(hard))
+	}
+	if len(hard) == 0 {
+		return
+	}
+	// phase 2: instantiation aid, per Exec sequentially (the term builder is not thread-safe), then the full portfolio
+	byExec := map[*Exec][]*job{}
+	var order []*Exec
+	for _, j := range hard {
+		if _, ok := byExec[j.o.x]; !ok {
+			order = append(order, j.o.x)
+		}
+		byExec[j.o.x] = append(byExec[j.o.x], j)
+	}
+	type ready struct {
+		j              *job
+		aided, ground string
+	}
+	rch := make(chan ready, 64)
+	var pwg sync.WaitGroup
+	sem := make(chan struct{}, workers)
+	for _, x := range order {
+		pwg.Add(1)
+		go func(x *Exec) {
+			defer pwg.Done()
+			sem <- struct{}{}
+			defer func() { <-sem }()
+			tb := x.tb
+			for _, j := range byExec[x] {
+				aided, ground := "", ""
+				j.o.Aid = x.instantiationAid(j.asserts, j.goal)
+				if len(j.o.Aid) > 0 {
+					full := append(append([]*Term(nil), j.asserts...), tb.Not(j.goal))
+					aided = tb.Script(append(append([]*Term(nil), full...), j.o.Aid...), j.gv, false)
+					// ground arm: the instances with every remaining quantifier weakened away (only "unsat" means anything)
+					var gs []*Term
+					for _, a := range full {
+						if w := tb.WeakenQ(a, 1); !w.IsTrue() {
+							gs = append(gs, w)
+						}
+					}
+					for _, a := range j.o.Aid {
+						if w := tb.WeakenQ(a, 1); !w.IsTrue() {
+							gs = append(gs, w)
+						}
+					}
+					ground = tb.Script(gs, nil, false)
+					if d := os.Getenv("GOVC_DUMPGROUND"); d != "" {
+						// diagnostics: the ground script with the goal's quantifier-free conjuncts as get-value terms
+						var parts []*Term
+						var split func(t *Term)
+						split = func(t *Term) {
+							switch {
+							case t.op == "and":
+								for _, a := range t.args {
+									split(a)
+								}
+							case t.op == "=>":
+								parts = append(parts, t.args[0])
+								split(t.args[1])
+							case !t.hasQ:
+								parts = append(parts, t)
+							}
+						}
+						split(j.goal)
+						os.MkdirAll(d, 0755)
+						var sb strings.Builder
+						for i, p := range parts {
+							fmt.Fprintf(&sb, "; part %d: %s\n", i, tb.Show(p))
+						}
+						os.WriteFile(fmt.Sprintf("%s/%s_%d.smt2", d, sanitize(j.o.Name), j.idx), []byte(sb.String()+tb.Script(gs, parts, false)), 0644)
+					}
+				}
+				rch <- ready{j, aided, ground}
+			}
+		}(x)
+	}
+	go func() { pwg.Wait(); close(rch) }()
+	var swg sync.WaitGroup
+	for w := 0; w < workers; w++ {
+		swg.Add(1)
+		go func() {
+			defer swg.Done()
+			for rd := range rch {
+				o2 := opts
+				o2.SkipPlainFirst = true
+				r := SolveAided(rd.j.script, rd.aided, rd.ground, o2)
+				mu.Lock()
+				f := first[rd.j]
+				mu.Unlock()
+				if f != nil {
+					r.Tried = append(append([]string(nil), f.Tried...), r.Tried...)
+					r.Seconds += f.Seconds
+				}
+				finish(rd.j, r)
+			}
+		}()
+	}
+	swg.Wait()
 }
 
 func (x *Exec) initMemFor(o *Obligation) map[*Object]*ObjState {
